@@ -9,6 +9,7 @@ import gen_outconv
 import gen_guards
 import gen_threads
 import gen_fastpath
+import gen_offsets
 
 REPO = os.environ.get("VERIF_REPO", "/repo")
 GEN = "/verif/coq/Gen"
@@ -42,6 +43,9 @@ def main():
     text, st = gen_fastpath.generate(REPO)
     gen_scalar.write_if_changed(os.path.join(GEN, "FastPath_gen.v"), text)
     note(st, "FastPath_gen")
+    text, st = gen_offsets.generate(REPO)
+    gen_scalar.write_if_changed(os.path.join(GEN, "Offsets_gen.v"), text)
+    note(st, "Offsets_gen")
     text, st = gen_guards.generate(REPO)
     gen_scalar.write_if_changed(os.path.join(GEN, "Guards_gen.v"), text)
     note(st, "Guards_gen")
